@@ -333,11 +333,17 @@ class Engine:
         raise OutOfSubset('call form')
 
     def resolve(self, name):
+        tag = ''
         if self.cur is not None:
             mod = self.cur.qual.split(':')[0]
             if f'{mod}:{name}' in self.contracts:
                 return f'{mod}:{name}'
-        return self.short_by_name.get(name)
+            if '@' in self.cur.qual:
+                # inside a specialised contract ('fn@tag'): a callee specialised under the same tag (or the tag named by `callee_tag`)
+                tag = '@' + (self.cur.d.get('callee_tag') or self.cur.qual.split('@')[1])
+                if f'{mod}:{name}{tag}' in self.contracts:
+                    return f'{mod}:{name}{tag}'
+        return self.short_by_name.get(name) or (self.short_by_name.get(name + tag) if tag else None)
 
     def args_of(self, n, ctx, ev):
         if any(isinstance(a, ast.Starred) for a in n.args) or any(k.arg is None for k in n.keywords):
@@ -498,7 +504,11 @@ class Engine:
                 vs.append(c)
                 ctx.env[arg.arg] = V(ty, c)
             n_as = len(ctx.assumes)
-            body = truthy(ev.ev(lam.body, ctx))
+            ctx.binders += 1
+            try:
+                body = truthy(ev.ev(lam.body, ctx))
+            finally:
+                ctx.binders -= 1
             ctx.env.clear()
             ctx.env.update(saved)
             # axioms instantiated for terms under the binder hold for every value of the bound variables
@@ -585,6 +595,10 @@ class Engine:
             return mk_int(len(v.ty.elems))
         if isinstance(v.ty, TDict):
             return self.dict_len(v, ctx)
+        if isinstance(v.ty, TRec):
+            q = self.method_qual(v.ty, '__len__')
+            if q:
+                return self.call_bound(q, [('self', v)], [], {}, ctx, getattr(n, 'lineno', 0))
         raise OutOfSubset(f'len of {v.ty}')
 
     def _minmax(self, n, ctx, ev, is_min):
@@ -755,7 +769,9 @@ class Engine:
                 return V(BOOL, z3.And(z3.Not(ty.is_none(v.t)), z3.BoolVal(ty.inner == table[tn])))
             return mk_bool(ty == table[tn] or (tn == 'int' and ty == BOOL))
         if tn in ('List', 'list'):
-            return mk_bool(isinstance(v.ty, TList))
+            if isinstance(v.ty, TOpt) and isinstance(v.ty.inner, (TList, TBag)):
+                return V(BOOL, z3.Not(v.ty.is_none(v.t)))
+            return mk_bool(isinstance(v.ty, (TList, TBag)))     # a bag models a list whose order is abstracted
         raise OutOfSubset(f'isinstance {tn}')
 
     def bi_sum(self, n, ctx, ev):
@@ -770,6 +786,8 @@ class Engine:
         f = z3.Function('SUM_' + et.name, lst.ty.sort(), z3.IntSort(), et.sort())
         k = fresh('k', z3.IntSort())
         zero = z3.IntVal(0) if et == INT else z3.RealVal(0)
+        if getattr(ctx, 'binders', 0) > 0:
+            return V(et, f(lst.t, upto))     # under a binder: a name for the fold, compared by congruence (see Evaluator.slice)
         ctx.assume(f(lst.t, 0) == zero)
         ctx.assume(z3.ForAll([k], z3.Implies(k >= 0, f(lst.t, k + 1) == f(lst.t, k) + z3.Select(lst.ty.arr(lst.t), k))))
         self.libs_used.add('SPEC-SUM: sum(list) is the recursive left fold SUM(l,0)=0, SUM(l,k+1)=SUM(l,k)+l[k]')
@@ -916,7 +934,57 @@ class Engine:
         ctx.side.append((f'comprehension-injective@{getattr(n, "lineno", 0)}', ctx.guard_term(), goal))
         return V(bt, B)
 
+    def literal_list_to_bag(self, v):
+        """a list value of concrete length (a literal) as a bag; None if the length is symbolic"""
+        if not isinstance(v.ty, TList):
+            return None
+        nn = z3.simplify(list_len(v))
+        if not z3.is_int_value(nn):
+            return None
+        bt = TBag(v.ty.elem)
+        b = z3.K(v.ty.elem.sort(), z3.IntVal(0))
+        for i in range(nn.as_long()):
+            x = z3.simplify(z3.Select(v.ty.arr(v.t), i))
+            b = z3.Store(b, x, z3.Select(b, x) + 1)
+        return V(bt, b)
+
+    def bag_filter_comprehension(self, n, ctx, ev):
+        """[x for x in B if cond(x)] over a bag B: the bag of the members satisfying cond, multiplicities kept"""
+        g = n.generators[0]
+        src = ev.ev(g.iter, ctx)
+        if not (isinstance(src.ty, TBag) and isinstance(g.target, ast.Name) and isinstance(n.elt, ast.Name)
+                and n.elt.id == g.target.id and len(n.generators) == 1):
+            return None
+        bt = src.ty
+        x = fresh(g.target.id, bt.elem.sort())
+        saved_env = dict(ctx.env)
+        ctx.env[g.target.id] = V(bt.elem, x)
+        n_as, n_ex = len(ctx.assumes), len(ctx.excs)
+        saved_g = list(ctx.guards)
+        ctx.guards.append(z3.Select(src.t, x) > 0)
+        conds = []
+        for cnd in g.ifs:
+            c_ = truthy(ev.ev(cnd, ctx))
+            conds.append(c_)
+            ctx.guards.append(c_)
+        ctx.guards[:] = saved_g
+        self._close_assumes(ctx, n_as, [x], n_ex)
+        ctx.env.clear()
+        ctx.env.update(saved_env)
+        r = fresh('bagfilter', bt.sort())
+        cond = z3.And(*conds) if conds else z3.BoolVal(True)
+        ctx.assume(z3.ForAll([x], z3.Select(r, x) == z3.If(cond, z3.Select(src.t, x), z3.IntVal(0))))
+        return V(bt, r)
+
     def list_comprehension(self, n, ctx, ev):
+        if len(n.generators) == 1 and isinstance(n.generators[0].iter, ast.Name):
+            it_v = ctx.env.get(n.generators[0].iter.id)
+            if it_v is not None and isinstance(it_v.ty, TBag):
+                r = self.bag_filter_comprehension(n, ctx, ev)
+                if r is not None:
+                    return r
+        if getattr(n, '_as_bag', False):
+            return self.comprehension_bag(n, ctx, ev)
         """[f(x) for x in range(a,b)] / [f(x) for x in lst] (map form, no ifs, one generator)"""
         if len(n.generators) != 1 or n.generators[0].ifs:
             raise OutOfSubset('list comprehension with filter / nesting')
